@@ -751,6 +751,10 @@ def value_method(self, st, recv, name, args, kwargs, lv):
             return  # mutation of a temporary
         self.write_lv(st, lv, Val(newterm, ty))
 
+    custom = getattr(self.reg, "value_methods", {}).get((getattr(ty, "name", None), name))
+    if custom is not None:
+        return custom(self, st, recv, a, kwargs)
+
     if isinstance(ty, SetT):
         es = ty.elem.sort()
         if name == "add":
